@@ -50,6 +50,19 @@ func TestVfC01Listeners(t *testing.T) {
 	metricsAddr := pip + ":9153"
 	cfg := &Config{Servers: StdServers(pip, AllListenerKinds, ""), Upstreams: []UpstreamCfg{{Tag: "up", Addr: up.Addr()}}, Rules: []Rule{{Forward: "up"}},
 		Extra: map[string]any{"metrics": map[string]any{"addr": metricsAddr}}}
+	const c01Idle = 2 // seconds; the stream listeners must drop a client that stalls in the middle of a frame after this long
+	for i := range cfg.Servers {
+		switch cfg.Servers[i].Protocol {
+		case "tcp", "gnet", "tls":
+			cfg.Servers[i].IdleTimeout = c01Idle
+		}
+	}
+	type stalledConn struct {
+		c    net.Conn
+		at   time.Time
+		what string
+	}
+	var stalled []stalledConn
 	p, err := StartProxy(cfg.YAML(), nil, ProxyOpts{})
 	if err != nil {
 		t.Fatal(err)
@@ -71,6 +84,28 @@ func TestVfC01Listeners(t *testing.T) {
 	baseG, baseF, haveBase := ProcStats(metricsAddr)
 	nCases := 0
 	defer func() {
+		// clients that stalled in the middle of a frame and stayed connected: the listener must have hung up on each of
+		// them idle_timeout (+ 4 s of slack) after their last octet - a reader without a deadline is one leaked goroutine,
+		// descriptor and buffer per hostile connection
+		for _, sc := range stalled {
+			if t.Failed() {
+				break
+			}
+			limit := sc.at.Add((c01Idle + 4) * time.Second)
+			if wait := time.Until(limit); wait > 0 {
+				sc.c.SetReadDeadline(limit)
+			} else {
+				sc.c.SetReadDeadline(time.Now().Add(150 * time.Millisecond))
+			}
+			_, rerr := io.Copy(io.Discard, sc.c)
+			if ne, ok := rerr.(net.Error); ok && ne.Timeout() {
+				t.Errorf("the listener still holds a connection %v after %s (idle_timeout %d s): a stalled client is never disconnected", time.Since(sc.at).Round(time.Millisecond), sc.what, c01Idle)
+			}
+		}
+		for _, sc := range stalled {
+			sc.c.Close()
+		}
+		st.Class("stalled-connections-checked", len(stalled))
 		if t.Failed() || !haveBase || p.Exited() {
 			return
 		}
@@ -212,7 +247,7 @@ func TestVfC01Listeners(t *testing.T) {
 				t.Fatalf("dial %s: %v", kind, err)
 			}
 			decl := len(hostile)
-			mode := rapid.SampledFrom([]string{"truthful", "zero", "short", "long", "64k", "partial-fin", "partial-rst", "two-frames"}).Draw(t, "frameMode")
+			mode := rapid.SampledFrom([]string{"truthful", "zero", "short", "long", "64k", "partial-fin", "partial-rst", "partial-stall", "two-frames"}).Draw(t, "frameMode")
 			var stream []byte
 			switch mode {
 			case "zero":
@@ -233,9 +268,20 @@ func TestVfC01Listeners(t *testing.T) {
 			if mode == "partial-fin" || mode == "partial-rst" {
 				stream = stream[:rapid.IntRange(0, len(stream)).Draw(t, "cutAt")]
 			}
+			if mode == "partial-stall" {
+				if rapid.IntRange(0, 3).Draw(t, "stallInPrefix") == 0 {
+					stream = stream[:1]
+				} else {
+					decl = min(len(hostile)+rapid.IntRange(1, 300).Draw(t, "missing"), 65535)
+					stream = append(binary.BigEndian.AppendUint16(nil, uint16(decl)), hostile[:min(len(hostile), decl-1)]...)
+				}
+			}
 			what = fmt.Sprintf("%s frame (%s, declared %d, body %d octets, class %s)", kind, mode, decl, len(hostile), class)
 			c.C.Write(stream)
-			if mode == "partial-rst" {
+			if mode == "partial-stall" {
+				// prefix complete (or half of it), body incomplete, and the client stays connected and silent
+				stalled = append(stalled, stalledConn{c.C, time.Now(), what})
+			} else if mode == "partial-rst" {
 				if tcp, ok := c.C.(*net.TCPConn); ok {
 					tcp.SetLinger(0)
 				}
